@@ -9,7 +9,7 @@ R09.noalloc     same-extent assignment, assignment through views, swap and move 
 """
 import re
 
-from vlib import common, ownrules
+from vlib import common, ownrules, typestate
 
 
 def run(tier):
@@ -55,6 +55,23 @@ def run(tier):
                 rep.violated(key, "R09.noalloc", "%s (%s) allocates although it needs no new storage" % (mod.ops[n]["body"], tag), dict(op=n))
             else:
                 rep.ok(key + "#" + tag, "R09.noalloc", None)
+        if "assign_iters" in res:
+            # a.assign(first, last) with a range of as many sub-views as the array has (equal leading size) is an in-place element assignment:
+            # the no-allocation path must be guarded by distance(first, last) == size() — the leading size, which is what a range of sub-views has
+            key = "R09.noalloc@assign_iters(same size)"
+            good = False
+            for r in res["assign_iters"]:
+                if r["outcome"] != "ret" or any(e[0] in ("alloc", "dealloc", "construct", "destroy") for e in r["events"]):
+                    continue
+                for c, v in r["pc"].items():
+                    sc = repr(typestate.strip(c))
+                    if v and "adl_distance" in sc and (("layout_t::size() const" in sc and "num_elements" not in sc) or (D == 1 and "num_elements" in sc)):
+                        good = True       # for D = 1 the leading size is the element count
+            if good:
+                rep.ok(key + "#" + tag, "R09.noalloc", None)
+            else:
+                rep.violated(key, "R09.noalloc", "a.assign(first, last) (%s): no storage-free path is taken when the range has as many items as the array's leading size "
+                             "(the in-place path is guarded by something else than distance(first, last) == size())" % tag, dict())
         if "assign_copy" in res:
             key = "R09.noalloc@assign_copy(same extents)"
             bad = []
